@@ -40,6 +40,14 @@ def programs():
         [("value", "referenced", {"BUILD.dawn": "@target()\ndef default(t, x=[1, 3], y={\"a\": (1, 2)}):\n    print(x, y)\n"})])
     add("closure", "def mk(v):\n    def inner():\n        print(v)\n    return inner\ntarget(name=\"default\", function=mk(5))\n",
         [("free-variable", "referenced", {"BUILD.dawn": "def mk(v):\n    def inner():\n        print(v)\n    return inner\ntarget(name=\"default\", function=mk(6))\n"})])
+    two = "def mk(v):\n    def inner():\n        return v\n    return inner\nA = mk(%s)\nB = mk(%s)\n" + T + "    print(A, B)\n"
+    add("two-closures-of-one-def", two % ("1", "2"), [("second-captured-value", "referenced", {"BUILD.dawn": two % ("1", "3")}),
+                                                       ("first-captured-value", "referenced", {"BUILD.dawn": two % ("5", "2")})])
+    chain = "def wrap(f, k):\n    def inner():\n        return (f, k)\n    return inner\nC = wrap(wrap(wrap(None, %s), %s), %s)\n" + T + "    print(C)\n"
+    add("closure-chain", chain % ("1", "2", "3"), [("innermost-captured-value", "referenced", {"BUILD.dawn": chain % ("9", "2", "3")}),
+                                                   ("middle-captured-value", "referenced", {"BUILD.dawn": chain % ("1", "8", "3")})])
+    dflt = "def mk(d):\n    def inner(x=d):\n        return x\n    return inner\nP = [mk([1]), mk([2])]\n" + T + "    print(P)\n"
+    add("two-defaults-of-one-def", dflt, [("second-default", "referenced", {"BUILD.dawn": dflt.replace("mk([2])", "mk([3])")})])
     add("nested", T + "    def inner(a):\n        return a + 10\n    f = lambda z: inner(z) * 2\n    print(f(1))\n",
         [("inner-constant", "referenced", {"BUILD.dawn": T + "    def inner(a):\n        return a + 11\n    f = lambda z: inner(z) * 2\n    print(f(1))\n"})])
     add("helper", "def helper():\n    return 3\n" + T + "    print(helper())\n",
